@@ -40,20 +40,20 @@ D = {
 
 D.update({
  'C03-w3-1': ("off-by-one in the 'first iterable of a comprehension' test (context.create_context): a name that is the first leaf of the first iterable is resolved from inside the comprehension",
-              "a comprehension in a class body whose iterable starts with a class attribute, or an iterable whose leading name equals a loop target", "C03", ""),
+              "a comprehension in a class body whose iterable starts with a class attribute, or an iterable whose leading name equals a loop target", "C03", "family added by the builder: comprehensions whose first iterable starts with the tracked identifier - 3 iterable forms (x, x.copy(), x[0]) x 2 targets (_ or x itself), in every enclosing scope kind, as list/set/dict comprehension and generator expression (quick +504 shapes x 4 levels)"),
  'C03-w3-2': ("GlobalNameFilter also merges `nonlocal` declarations into the module scope", "a `nonlocal x` in a nested function plus a use of x that Python resolves in the module", "C03", ""),
  'C08-w3-1': ("Script(path=...) without code parses with cache=True: answers come from the tree of an earlier unsaved buffer on that path", "Script(code=X, path=P) with X != file, then Script(path=P)", "C08", ""),
  'C08-w3-2': ("early return in dynamic_arrays._internal_check_array_additions skips restoring settings.dynamic_params_for_other_modules (process-global)", "a buffer text iterating a list literal without .append, then a text needing callers in a sibling module", "C08", ""),
- 'C09-w3-1': ("package sub-module listing memoised per parso cache entry of __init__.py", "a sub-module added/removed while __init__.py is untouched, queried through the listing", "C09", ""),
- 'C09-w3-2': ("get_default_project memoised per folder", "Scripts without project=, then __init__.py of the edited file's folder added/removed", "C09", ""),
- 'C10-w3-1': ("ImplicitNamespaceValue stores sorted(set(paths)): portions searched alphabetically instead of in sys.path order", "a namespace package split over two roots in non-alphabetical sys.path order with a clashing sub-module", "C10", ""),
- 'C10-w3-2': ("the script's own dotted name derived from the sys.path that includes parent dirs (shortest-name heuristic picks `util` for proj/tools/util.py, registered in module_cache)", "smart_sys_path, a script in an __init__-less folder, a same-named module on an earlier entry", "C10", ""),
- 'C11-w3-1': ("bound signature strips the first parameter before *args/**kwargs are resolved", "a decorated (functools.wraps pass-through) method/classmethod/__init__ accessed bound", "C11", ""),
- 'C11-w3-2': ("param to_string collapses whitespace, also inside string literals of defaults/annotations", "a default or annotation containing a string literal with two or more blanks / tab / newline", "C11", ""),
+ 'C09-w3-1': ("package sub-module listing memoised per parso cache entry of __init__.py", "a sub-module added/removed while __init__.py is untouched, queried through the listing", "C09", "events added by the builder: add/remove sub-modules of a regular package with __init__.py untouched, probes through the folder listing (completion after `from pkg import `, `pkg.`, goto on the removed one)"),
+ 'C09-w3-2': ("get_default_project memoised per folder", "Scripts without project=, then __init__.py of the edited file's folder added/removed", "C09", "events added by the builder: a buffer analysed WITHOUT project= (get_default_project decides the root) and +/- __init__.py of its own folder"),
+ 'C10-w3-1': ("ImplicitNamespaceValue stores sorted(set(paths)): portions searched alphabetically instead of in sys.path order", "a namespace package split over two roots in non-alphabetical sys.path order with a clashing sub-module", "C10", "family `namespace-portions-clash` added by the builder: same sub-module in every portion x module/package/namespace directory per portion x every sys.path order of the roots (72 layouts quick, 3 roots thorough)"),
+ 'C10-w3-2': ("the script's own dotted name derived from the sys.path that includes parent dirs (shortest-name heuristic picks `util` for proj/tools/util.py, registered in module_cache)", "smart_sys_path, a script in an __init__-less folder, a same-named module on an earlier entry", "C10", "family `script-in-plain-subdir` added by the builder: script in d/ or d/e/ without __init__.py x root holding nothing/module/package of each pool name x smart Project / explicit sys_path (144 layouts quick), oracle = clean child with jedi's configured path, incl. the full_name round trip"),
+ 'C11-w3-1': ("bound signature strips the first parameter before *args/**kwargs are resolved", "a decorated (functools.wraps pass-through) method/classmethod/__init__ accessed bound", "C11", "callable-kind family added by the builder: {method, classmethod, staticmethod, __call__, __init__} x {plain, functools.wraps pass-through} x every bound/unbound access, compared with inspect.signature of the very object"),
+ 'C11-w3-2': ("param to_string collapses whitespace, also inside string literals of defaults/annotations", "a default or annotation containing a string literal with two or more blanks / tab / newline", "C11", "default/annotation alphabet extended by the builder with white-space string literals ('a  b', tab, triple-quoted newline, '    ', ',  ') rotated over every position; compared by re-executing to_string()"),
  'C12-w3-1': ("safe-path filter moved out of _load_builtin_module and applied in one of two call sites only: auto_import_modules branch imports with the project sys.path", "a project file named like an auto_import_modules entry (gi.py) and a buffer importing it", "C12", ""),
  'C12-w3-2': ("Project._get_base_sys_path drops the defensive copy: `remove('')` edits the host's live sys.path under InterpreterEnvironment", "Script(environment=InterpreterEnvironment()) in a host whose sys.path contains ''", "C12", ""),
- 'C13-w3-1': ("get_key_paths iterates the live object (islice(obj)) instead of obj.keys(): dict subclasses' __iter__ runs in safe mode", "dict subclass with __iter__, completion inside subscript brackets `reg['`", "C13", ""),
- 'C13-w3-2': ("getattr_static._safe_hasattr looks only in type(obj).__dict__: descriptor types that inherit __get__ count as plain attributes", "`class lazy(property)` / `class IntField(Field)` members on live objects", "C13", ""),
+ 'C13-w3-1': ("get_key_paths iterates the live object (islice(obj)) instead of obj.keys(): dict subclasses' __iter__ runs in safe mode", "dict subclass with __iter__, completion inside subscript brackets `reg['`", "C13", "family `keys` added by the builder: dict-key completion on plain dict, OrderedDict, defaultdict and dict subclasses with counting __iter__/__next__/keys/__getitem__/__len__/__contains__ (class statements and type()-created), reached by name / attribute / index / nested key, 9 cursor shapes"),
+ 'C13-w3-2': ("getattr_static._safe_hasattr looks only in type(obj).__dict__: descriptor types that inherit __get__ count as plain attributes", "`class lazy(property)` / `class IntField(Field)` members on live objects", "C13", "levels added by the builder: property / non-data / data descriptor / metaclass property whose type only INHERITS __get__/__set__, on class, base and metaclass, plain and shadowed in the instance dict"),
  'C14-w3-1': ("is_crashed guard dropped at the top of CompiledSubprocess._send: a Script kept from before the crash raises ValueError (write to closed file)", "old Script re-queried after the crash was noticed through another Script", "C14", ""),
  'C14-w3-2': ("one shared try around the stream-closing loop in _cleanup_process: stdout/stderr of a helper that died before the send stay open", "crash phase 'before send' + fd table inspection", "C14", ""),
  'C15-w3-1': ("the memoiser forgets empty results: unresolvable diamonds are re-inferred along every path", "diamond-shaped definition graph with an unresolvable bottom", "C15", ""),
